@@ -2,7 +2,7 @@ SPEC = {
     "id": "C29",
     "props_module": "NDB.Props.C29",
     "corr_modules": ["NDB.Corr.C29"],
-    "theorems": ["C29_quiescent", "C29_quiescent_files", "C29_concurrent_refuted", "C29_concurrent_commits"],
+    "theorems": ["C29_quiescent", "C29_quiescent_files", "C29_concurrent_refuted", "C29_concurrent_nocompact", "C29_inplace"],
     "allowed_axioms": [],
     "harness_pkg": "hx_store",
     "harness_bin": "c29",
@@ -11,7 +11,7 @@ SPEC = {
     "trusted_base": [
         "Coq 8.16.1 kernel + vm_compute; coqchk in the thorough tier; axioms: none",
         "hand-written model Store/Backup.v: writer I/O step stream (page writes, log appends), backup = page file as of step i + log as of step j, open = last manifest + replay above its checkpoint; "
-        "granularity whole pages / whole log records; compaction modelled as fresh segment pages then the manifest record (in-place updates of the property B-tree, torn reads inside one io::copy and the close-time log rewrite are not modelled)",
+        "granularity whole pages / whole log records; compaction modelled as fresh segment pages, then the property-tree root rewritten in place, then the manifest record; label creations and the close-time log rewrite (one atomic step) are writer operations; torn reads inside one io::copy are not modelled",
         "tie to the code: every generated backup (quiescent and interleaved at the hook point between copy_ndb_file and copy_wal_file) is restored with BackupManager::restore_from_backup, opened and dumped; "
         "opens / number of visible transactions compared with the model inside Coq",
         "hook commit 4bb07ea (--cfg nervusdb_verif): verif_io::point(\"backup:between_copies\") in BackupManager::execute_backup; the interleaved writer ops run on the same thread at that point (deterministic)",
@@ -24,9 +24,9 @@ SPEC = {
         "category": "proof",
         "text": "Proved over the step-stream model, for every history: a backup whose two copies see the same moment restores exactly the source files (any step index) and, at operation boundaries, opens and shows every transaction committed before it (C29_quiescent). "
                 "The concurrent statement is refuted (C29_concurrent_refuted, K-C29-concurrent): a compaction between the page-file copy and the log copy leaves the copied log's manifest pointing at segment pages the copied page file lacks - reproduced on the real code through the schedule point (restored database fails to open: 'page N not allocated'). "
-                "Conditional: with only commits between the copies the backup equals the source at the moment of the log copy (C29_concurrent_commits; observed on the code as well).",
+                "Conditional: with commits, label creations and close-time log rewrites but no compaction between the copies the backup equals the source at the moment of the log copy (C29_concurrent_nocompact; observed on the code as well). The in-place rewrite of the property-tree root adds no failure class of its own at this granularity (C29_inplace).",
         "design_ref": "DESIGN.md §5 C29",
-        "level_note": "Partial: concurrency is modelled at step granularity with one controlled schedule point; torn reads inside a copy and checkpoint-on-close rewrites during a backup are not modelled. Trusted: Coq kernel, hand-written model tied by sampled correspondence.",
+        "level_note": "Partial: concurrency is modelled at step granularity with one controlled schedule point; torn reads inside a copy are not modelled; the log rewrite is one atomic step. Trusted: Coq kernel, hand-written model tied by sampled correspondence.",
         "technique": "Rocq proof (writer invariant over operation sequences) + vm_compute refutation witness + deterministic interleaving on the real code via a cfg-guarded schedule point",
     },
 }
